@@ -197,7 +197,7 @@ PROPS = {
              "fail. close: CloseConnToCollector from 1..8 goroutines twice each while the application goroutine sends: returns (30 s bound), "
              "SendSet after it fails, peer stream == acknowledged sends (+ at most one failed send or a prefix of it), well-formed datagrams. "
              "At the end no goroutine with a pkg/exporter frame may remain. Non-trivial = application data fell between two datagrams of one "
-             "refresh round / close noticed / a Close raced acknowledged sends. ALSO: A quarter of the refresh sessions keep announcing new templates every 0.3-0.7 s: the templates of the start must still be refreshed. One backpressure session in 16 stalls for 6.5 s (beyond any send timeout): there sends may fail and the application goes on sending; what reaches the peer must be whole application messages in order, every successful send among them, a partial message only as the last thing ever written. One refresh session in 8 is a storm: 150-250 templates (a refresh round takes milliseconds) and a burst of 4-9 NEW templates announced while a round is on the wire, then none until the next round. In every refresh session: if a template X has refresh copies at capture positions p1 < p2 < p3, every template announced before p1 must have a copy in (p1, p3) (template-not-refreshed) - sound whatever order the rounds walk the table in.",
+             "refresh round / close noticed / a Close raced acknowledged sends. ALSO: A quarter of the refresh sessions keep announcing new templates every 0.3-0.7 s: the templates of the start must still be refreshed. One backpressure session in 16 stalls for 6.5 s (beyond any send timeout): there sends may fail and the application goes on sending; what reaches the peer must be whole application messages in order, every successful send among them, a partial message only as the last thing ever written. One refresh session in 3 is a storm: 150-250 templates (a refresh round takes milliseconds) and one burst of 4-9 NEW templates announced while the first round is on the wire, then none. In every refresh session: between a template's announcement, its refresh copies and the end of the capture (arrival times at the peer) no gap may exceed 2.5 intervals; such a session is repeated as a fresh session of the same kind observed twice as long, and template-not-refreshed is reported only if a template goes without a copy for 4 intervals there as well.",
              COMMON_ASSUME + [ONE_MSG] + ["rounds are recognised structurally (a template id repeating starts a new round), not by wall-clock gaps",
                               "loss of a datagram on loopback makes a refresh session inconclusive"],
              "runtime monitor: per-datagram parser + refresh-round model + prefix-of-acknowledged-sends model at a raw peer; goroutine leak probe; race detector"),
